@@ -23,6 +23,26 @@ func (o *Obl) smt(extraGet []string) string {
 		sy.collect(p, nil)
 	}
 	sy.collect(o.Goal, nil)
+	// uninterpreted symbols used inside definition bodies (parameters of the definitions are bound)
+	for _, b := range o.DefBodies {
+		pb := map[string]bool{}
+		var mark func(t *Term)
+		seen := map[*Term]bool{}
+		mark = func(t *Term) {
+			if seen[t] {
+				return
+			}
+			seen[t] = true
+			if t.Op == "var" && strings.Contains(t.Name, "$") {
+				pb[t.Name] = true
+			}
+			for _, a := range t.Args {
+				mark(a)
+			}
+		}
+		mark(b)
+		sy.collect(b, pb)
+	}
 	defined := map[string]bool{}
 	for _, n := range o.DefNames {
 		defined[n] = true
